@@ -188,3 +188,49 @@ Example C16_hyps_met :
     [Ok 0; Ok 83; Ok 0; Ok 72; Ok 72; Ok 72; Ok (-257); Ok (-257); Ok 83; Ok 0]%Z.
 Proof. exact c16_hyps_met. Qed.
 Print Assumptions C16_hyps_met.
+
+(* ======================= the cache is transparent for WHOLE SEARCHES (Compose/Cache*.v) =======================
+   "caching never changes a result" lifted from single evaluations to what the engine plays and prints.  [visited go_keys root]: the
+   positions a search from root can reach; [go_eval_injective root]: C16's no-collision hypothesis on that set, only for positions the
+   cache is consulted for (clock below 100); [go_cache_sound root c]: wherever a visited position would hit the cache c, the entry is that
+   position's uncached evaluation (entries for other positions are unconstrained unless they share a stored hash with a visited one).
+   Two states that differ ONLY in the evaluation cache, both caches sound: Search returns the same answer, prints the same info lines,
+   counts the same nodes, makes the same polls and leaves the same transposition table, heuristics and PV; both caches stay sound. *)
+From Clemens Require Search.Negamax Search.GoInst.
+From Clemens.C13Bridge Require Bridge Seq.
+From Clemens.Compose Require CacheSound CacheCalls CacheGo CacheExamples.
+Import Clemens.Search.Negamax Clemens.Search.GoInst.
+
+Theorem C16_search_cache_transparent : forall root iters fuel rep s1 s2 req,
+  CacheGo.go_eval_injective root ->
+  CacheSound.eq_but_cache s1 s2 -> CacheGo.go_cache_sound root (s_cache s1) -> CacheGo.go_cache_sound root (s_cache s2) ->
+  CacheCalls.agree go_econsts (Bridge.visited go_keys root)
+    (go_search iters fuel rep s1 root req) (go_search iters fuel rep s2 root req).
+Proof. exact CacheGo.go_search_cache_transparent. Qed.
+Print Assumptions C16_search_cache_transparent.
+
+Theorem C16_search_defs : forall (V : position -> Prop) (X Y : sresult N * sst) s1 s2,
+  (CacheCalls.agree go_econsts V X Y <->
+     fst X = fst Y /\ CacheSound.eq_but_cache (snd X) (snd Y) /\
+     CacheSound.cache_sound_on go_econsts V (s_cache (snd X)) /\ CacheSound.cache_sound_on go_econsts V (s_cache (snd Y))) /\
+  (CacheSound.eq_but_cache s1 s2 <->
+     s_tt s1 = s_tt s2 /\ s_nodes s1 = s_nodes s2 /\ s_killers s1 = s_killers s2 /\
+     s_history s1 = s_history s2 /\ s_counter s1 = s_counter s2 /\ s_hist s1 = s_hist s2 /\
+     s_pv s1 = s_pv s2 /\ s_out s1 = s_out s2 /\ s_polls s1 = s_polls s2 /\ s_cancel s1 = s_cancel s2).
+Proof. intros. split; apply iff_refl. Qed.
+Print Assumptions C16_search_defs.
+
+(* in particular: the next search of ANY session of searches answers, prints and counts exactly as it would with the cache emptied *)
+Theorem C16_session_search_as_from_empty_cache : forall root0 roots s root iters fuel rep req,
+  CacheGo.go_eval_injective root0 -> CacheGo.go_hash_nonzero root0 ->
+  (forall r, In r (root :: roots) -> Bridge.visited go_keys root0 r) ->
+  Seq.session roots s ->
+  CacheCalls.agree go_econsts (Bridge.visited go_keys root0)
+    (go_search iters fuel rep (upd_cache s []) root req) (go_search iters fuel rep s root req).
+Proof. exact CacheGo.session_search_as_from_empty_cache. Qed.
+Print Assumptions C16_session_search_as_from_empty_cache.
+
+(* soundness cannot be dropped (the same cache with every score replaced by 900: another move is played), and the hypotheses are
+   satisfiable with a non-empty cache; both by kernel evaluation *)
+Example C16_unsound_cache_changes_the_move := CacheExamples.unsound_cache_changes_the_move.
+Example C16_search_hypotheses_satisfiable := CacheExamples.hypotheses_satisfiable.
